@@ -68,6 +68,20 @@ CLAIMS = {
             'replaced by the requested length; no raw write outside pass-through `impl Write::write` bodies (all other transfers use the looping forms); '
             'chunks handed to the cipher are complete reads on a bounded take; buffer contents are consumed only up to the count read; decoder-produced '
             'zero counts must not be returned mid-stream (one genuine defect recorded as known finding). Equality of the resulting archives is not decided.'),
+    'C02': (TECH_CENSUS + ' + MIR path rules on convert_to_archive', '§4 C02',
+            'Decides: no unreviewed, input-tainted panic site is reachable from the fail-safe entry points (interval / guard / length-fact discharge, reviewed '
+            'table); a file is marked done only on the hash-equal edge and the running hash covers exactly the appended slices; every Ok result follows a '
+            'successful finalize and the clean-up loop ends every unfinished file; EndOfOriginalArchiveData only under the end marker, UnfinishedFiles always '
+            'reported, every inconsistency leaves the block loop. That recovered content is a prefix of the original, and termination, are not decided.'),
+    'C08': (TECH_CENSUS + ', allocation-size and recursion rules', '§3, §4 C08',
+            'Decides for the crash / allocation / recursion clauses: every MIR assert and panicking API call reachable (over-approximate call graph) from the '
+            'reader, extraction, repair and C read entry points is discharged automatically or reviewed, and any new site fed by archive data is reported; '
+            'allocation sizes derived from the archive are bounded by named constants, deserialisation is limit-bounded; direct self-recursion is tabled with '
+            'its depth bound (one genuine unbounded recursion recorded as known finding); placeholder-state and empty-offset guards dominate their panics. '
+            'Loop termination, wall time and peak memory as numbers are not decided.'),
+    'C18': (TECH_CENSUS, '§4 C18',
+            'Decides totality (no crash) of the five public key parsers: all index / slice / copy sites reachable from them are discharged by the dominating '
+            'length fact or fixed-size types; dependencies are trusted not to panic. Round-trip and curve conversion are numeric and not decided.'),
 }
 
 NOT_APPLICABLE = {
